@@ -10,7 +10,8 @@
 // `asis`: PID.Ask has an atomic site after its select (the late responseClosed.Store(true)), so an Ask is three
 // steps; `fixed`: it has none (fixes/C15-ask-no-late-store.diff), an Ask is two steps.
 //
-// A program is either a caller (ops a<k>: Ask with request id k, replies carry the id the target found
+// A program is either a caller (ops a<k> = PID.Ask, b<k> = actor.Ask, c<k> = actorSystem.handleRemoteAsk, each with
+// request id k; replies carry the id the target found
 // in the message) or the target's worker (ops h: dequeue one message and Response to it).
 // With N programs, schedule entry t < N steps thread t; entry N+i is the deadline of caller i
 // ("Timeout"): the caller's select takes the timeout branch when it is next stepped with an empty
@@ -33,6 +34,7 @@ import (
 type caller struct {
 	isCaller bool
 	inAsk    bool // the build step of the current Ask has been executed
+	selected bool // the select of the current Ask has been executed (a late store may still follow)
 	ch       chan any
 	cancel   context.CancelFunc
 	deadline bool
@@ -51,8 +53,15 @@ func run(line string) string {
 	}
 	parts := strings.Split(line, "|")
 	cfg := strings.Fields(parts[0])
-	if len(parts) != 3 || len(cfg) != 2 || cfg[0] != "ask" || (cfg[1] != "asis" && cfg[1] != "fixed") {
+	if len(parts) != 3 || len(cfg) != 2 || (cfg[0] != "ask" && cfg[0] != "gask") || (cfg[1] != "asis" && cfg[1] != "fixed") {
 		return "bad-case"
+	}
+	// gask: the grain path (actorSystem.localSend, grainMailbox, GrainContext); the caller's select is in the step of the
+	// last atomic site of grainMailbox.tryEnqueue (`Add:len`) instead of `Call:Get`
+	grain := cfg[0] == "gask"
+	selLabel := "Call:Get"
+	if grain {
+		selLabel = "Add:len"
 	}
 	// the mode word only selects the Lean model variant; the harness follows the labels of the real code:
 	// `Store:responseClosed` before the select is build, `Call:Get` is the select, a `Store:responseClosed` after
@@ -73,11 +82,16 @@ func run(line string) string {
 	target := actor.VerifC15Target()
 	self := actor.VerifC15Caller()
 	actor.VerifC15DrainPools()
+	var rig *actor.VerifGrainRig
+	if grain {
+		rig = actor.VerifC15NewGrainRig()
+		actor.VerifC15GrainDrainPools()
+	}
 	cs := make([]*caller, n)
 	for i, p := range progs {
 		cs[i] = &caller{}
 		for _, op := range p {
-			if strings.HasPrefix(op, "a") {
+			if strings.HasPrefix(op, "a") || strings.HasPrefix(op, "b") || strings.HasPrefix(op, "c") {
 				cs[i].isCaller = true
 			} else if op != "h" {
 				return "bad-case"
@@ -91,6 +105,16 @@ func run(line string) string {
 		s.Go(func() {
 			for _, op := range prog {
 				r := vlib.Safe(func() string {
+					if op == "h" && grain {
+						vsched.Point("Deq")
+						gc := rig.Dequeue()
+						if gc == nil {
+							return "empty"
+						}
+						id := fmt.Sprint(gc.Message())
+						gc.Response(gc.Message())
+						return "h" + id
+					}
 					if op == "h" {
 						vsched.Point("Deq")
 						rc := actor.VerifC15Dequeue(target)
@@ -108,7 +132,22 @@ func run(line string) string {
 					ctx, cancel := context.WithCancel(context.Background())
 					cs[tid].cancel = cancel
 					defer cancel()
-					res, err := self.Ask(ctx, target, k, time.Hour)
+					var res any
+					switch {
+					case grain: // AskGrain's local path
+						res, err = rig.Ask(ctx, k, time.Hour)
+					default:
+					}
+					switch op[0] {
+					case 'b': // package-level actor.Ask (api.go)
+						res, err = actor.Ask(ctx, target, k, time.Hour)
+					case 'c': // actorSystem.handleRemoteAsk (actor_system.go)
+						res, err = actor.VerifC15SystemAsk(ctx, target, k, time.Hour)
+					default: // PID.Ask (pid.go)
+						if !grain {
+							res, err = self.Ask(ctx, target, k, time.Hour)
+						}
+					}
 					if err != nil {
 						return "timeout"
 					}
@@ -124,7 +163,7 @@ func run(line string) string {
 		if t >= n {
 			i := t - n
 			c := cs[i]
-			if i < n && c.isCaller && !s.Done(i) && (s.At(i) == "Call:Get" || !c.inAsk) {
+			if i < n && c.isCaller && !s.Done(i) && !c.selected {
 				c.deadline = true
 			}
 			trace = append(trace, fmt.Sprintf("%d:Timeout", t))
@@ -132,7 +171,12 @@ func run(line string) string {
 		}
 		c := cs[t]
 		at := s.At(t)
-		if c.isCaller && !s.Done(t) && at == "Call:Get" {
+		if !c.isCaller && grain && !s.Done(t) && at == "Deq" && rig.WouldSpin() {
+			// grainMailbox.Dequeue would busy-wait for a producer parked between its tail swap and its link
+			trace = append(trace, fmt.Sprintf("%d:%s!blocked", t, at))
+			return
+		}
+		if c.isCaller && !s.Done(t) && at == selLabel {
 			if len(c.ch) == 0 {
 				if !c.deadline {
 					trace = append(trace, fmt.Sprintf("%d:%s!blocked", t, at))
@@ -149,13 +193,21 @@ func run(line string) string {
 			return
 		}
 		if c.isCaller && !strings.HasPrefix(l, "!") {
-			if !c.inAsk && at != "Call:Get" {
+			if !grain && !c.inAsk && at != selLabel {
 				// build step: the context has just been enqueued
 				c.inAsk = true
 				c.ch = actor.VerifC15Chan(actor.VerifC15LastEnqueued(target))
 			}
+			if grain && at == "Swap:tail" {
+				// the caller's context is the mailbox tail right after its swap
+				c.ch = rig.TailChan()
+			}
+			if at == selLabel {
+				c.selected = true
+			}
 			if len(results[t]) > before {
 				c.inAsk = false
+				c.selected = false
 				c.deadline = false
 				c.ch = nil
 			}
@@ -213,6 +265,23 @@ func run(line string) string {
 	}
 	fin := "unfinished"
 	if s.AllDone() {
+		if grain {
+			closed, nresp := actor.VerifC15GrainPools()
+			var sb strings.Builder
+			for _, x := range closed {
+				if x {
+					sb.WriteByte('t')
+				} else {
+					sb.WriteByte('f')
+				}
+			}
+			cp := sb.String()
+			if cp == "" {
+				cp = "-"
+			}
+			fin = fmt.Sprintf("ctxpool=%s chanpool=%d mbox=%d", cp, nresp, rig.Linked())
+			return "T " + strings.Join(trace, " ") + " | R " + strings.Join(rs, ";") + " | F " + fin
+		}
 		closed, stale := actor.VerifC15Pools()
 		b := func(l []bool) string {
 			if len(l) == 0 {
